@@ -81,8 +81,13 @@ def attr_equal(a, b, name):
             if isinstance(x, types.CodeType) or isinstance(y, types.CodeType):
                 if x is not y and x != y:
                     return False
-            elif type(x) is not type(y) or repr(x) != repr(y):
-                return False
+            else:
+                # kind-and-value equality on the canonical tree (repr() of a set depends on iteration order, which a
+                # deep copy may change: comparing reprs raised a false alarm once G gained string-set constants)
+                from gen.canon import canon
+
+                if canon(x) != canon(y):
+                    return False
         return True
     return type(a) is type(b) and a == b
 
